@@ -284,6 +284,9 @@ class AWSGlueExecutor(Executor):
 
         # Execution state.
         self.is_running = False
+        # Guards the decision of whether a monitor thread is watching for new jobs.
+        self._lock = threading.RLock()
+        self._is_monitoring = False
         self._monitor_thread = threading.Thread(target=self._monitor, daemon=False)
         self._submit_thread = threading.Thread(target=self._submission_thread, daemon=False)
         self.pending_glue_jobs: deque["Job"] = deque()
@@ -347,40 +350,58 @@ class AWSGlueExecutor(Executor):
         """
         Starts monitoring thread
         """
-        if not self.is_running:
-            self.is_running = True
+        with self._lock:
+            if not self.is_running:
+                self.is_running = True
 
-        if not self._monitor_thread.is_alive():
-            self._monitor_thread = threading.Thread(target=self._monitor, daemon=False)
-            self._monitor_thread.start()
+            # A monitor thread that has decided to exit may still be alive for a moment.
+            if not self._is_monitoring or not self._monitor_thread.is_alive():
+                self._is_monitoring = True
+                self._monitor_thread = threading.Thread(target=self._monitor, daemon=False)
+                self._monitor_thread.start()
 
-        if not self._submit_thread.is_alive():
-            self._submit_thread = threading.Thread(target=self._submission_thread, daemon=False)
-            self._submit_thread.start()
+            if not self._submit_thread.is_alive():
+                self._submit_thread = threading.Thread(
+                    target=self._submission_thread, daemon=False
+                )
+                self._submit_thread.start()
 
     def _monitor(self) -> None:
         """Thread for monitoring running AWS Glue jobs."""
         assert self._scheduler
         assert self.glue_job_name
 
-        try:
-            while self.is_running and (self.running_glue_jobs or self.pending_glue_jobs):
-                # Process running glue jobs
-                jobs = glue_describe_jobs(
-                    list(self.running_glue_jobs.keys()),
-                    glue_job_name=self.glue_job_name,
-                    aws_region=self.aws_region,
-                )
+        while True:
+            failed = False
+            try:
+                while self.is_running and (self.running_glue_jobs or self.pending_glue_jobs):
+                    # Process running glue jobs
+                    jobs = glue_describe_jobs(
+                        list(self.running_glue_jobs.keys()),
+                        glue_job_name=self.glue_job_name,
+                        aws_region=self.aws_region,
+                    )
 
-                for job in jobs:
-                    self._process_job_status(job)
+                    for job in jobs:
+                        self._process_job_status(job)
 
-                time.sleep(self.interval)
+                    time.sleep(self.interval)
 
-        except Exception as error:
-            self._scheduler.reject_job(None, error)
+            except Exception as error:
+                failed = True
+                self._scheduler.reject_job(None, error)
 
-        self.stop()
+            with self._lock:
+                # A job submitted since the loop above found nothing left to monitor did not
+                # start a new monitor thread, because this thread was still alive. Keep
+                # monitoring for it instead of exiting.
+                idle = self.is_running and not failed
+                self.stop()
+                if idle and (self.running_glue_jobs or self.pending_glue_jobs):
+                    self._start()
+                    continue
+                self._is_monitoring = False
+            break
 
     def _submission_thread(self) -> None:
         """
@@ -398,14 +419,17 @@ class AWSGlueExecutor(Executor):
             while self.is_running and self.pending_glue_jobs:
                 fail_counter = 0
                 while fail_counter < 5 and self.pending_glue_jobs:
-                    job = self.pending_glue_jobs.popleft()
+                    # Keep the job in pending_glue_jobs until it is in running_glue_jobs, so
+                    # that the monitor thread never sees a job in neither of them.
+                    job = self.pending_glue_jobs[0]
                     job_id = self.submit_pending_job(job)
 
                     if job_id is None:
                         fail_counter += 1
-                        self.pending_glue_jobs.append(job)
+                        self.pending_glue_jobs.rotate(-1)
                     else:
                         self.running_glue_jobs[job_id] = job
+                        self.pending_glue_jobs.popleft()
                         fail_counter = 0
 
                 time.sleep(self.retry_interval)
@@ -417,7 +441,8 @@ class AWSGlueExecutor(Executor):
         # as new job submissions will restart it.
 
     def stop(self) -> None:
-        self.is_running = False
+        with self._lock:
+            self.is_running = False
 
     def _process_job_status(self, job: Mapping[str, Any]) -> None:
         assert self._scheduler
